@@ -72,7 +72,7 @@ type Stats struct {
 	Digests      []string          `json:"digests,omitempty"`
 	Nondet       string            `json:"nondeterminism,omitempty"`
 	HarnessErr   string            `json:"harness_error,omitempty"`
-	EnumDone     int               `json:"enum_done"` // enumerated cases executed by this worker
+	EnumDone     int               `json:"enum_done"`  // enumerated cases executed by this worker
 	Panics       int               `json:"sut_panics"` // cases skipped because the code under test panicked where a panic is not this property's subject
 	PanicSample  string            `json:"sut_panic_sample,omitempty"`
 	WallS        float64           `json:"wall_s"`
